@@ -33,6 +33,7 @@ structure Inv (cfg : Cfg) (sys : Sys) : Prop where
   free : sys.lock = none → Counted sys.shared
   mid : ∀ i th pc, sys.threads[i]? = some th → th.pc = some pc →
           sys.lock = some i ∧ ∃ op rest, th.prog = op :: rest ∧ MidOK cfg op pc th.loc sys.shared
+  held : ∀ i, sys.lock = some i → ∃ th pc, sys.threads[i]? = some th ∧ th.pc = some pc
 
 /-! ### the store step on the map -/
 
@@ -225,7 +226,7 @@ theorem inv_finish (cfg : Cfg) (sys : Sys) (t : Nat) (th : Thread) (op : Op) (re
     (hwf : WF s'.kv) (hw : Within cfg s'.kv) (hc : Counted s')
     (hoth : ∀ i th' pc, i ≠ t → sys.threads[i]? = some th' → th'.pc = some pc → False) :
     Inv cfg (finish sys t th op rest s' (some t) r) := by
-  refine ⟨hwf, hw, fun _ => hc, ?_⟩
+  refine ⟨hwf, hw, fun _ => hc, ?_, fun i hi => by simp [finish, release] at hi⟩
   intro i th' pc hi hpc
   by_cases hit : i = t
   · subst hit
@@ -242,7 +243,13 @@ theorem inv_cont (cfg : Cfg) (sys : Sys) (t : Nat) (th : Thread) (op : Op) (rest
     (hwf : WF s'.kv) (hw : Within cfg s'.kv) (hm : MidOK cfg op pc' l' s')
     (hoth : ∀ i th' pc, i ≠ t → sys.threads[i]? = some th' → th'.pc = some pc → False) :
     Inv cfg (cont sys t th op rest s' (some t) pc' l') := by
-  refine ⟨hwf, hw, fun h => by simp [cont] at h, ?_⟩
+  refine ⟨hwf, hw, fun h => by simp [cont] at h, ?_, ?_⟩
+  rotate_left
+  · intro i hi
+    simp only [cont, Option.some.injEq] at hi
+    subst hi
+    exact ⟨{ prog := op :: rest, pc := some pc', loc := l', done := th.done }, pc',
+      by simp only [cont, List.getElem?_set_self (lt_of_getElem? hth)], rfl⟩
   intro i th' pc hi hpc
   by_cases hit : i = t
   · subst hit
@@ -380,7 +387,7 @@ theorem drain_inv (cfg : Cfg) (hreg : cfg.registered = true) (fuel : Nat) (sys :
 
 theorem init_inv (cfg : Cfg) (progs : List (List Op)) : Inv cfg (init progs) := by
   refine ⟨⟨sorted_nil, sorted_nil⟩, ⟨fun m _ => Nat.zero_le m, fun m _ => Nat.zero_le m⟩,
-    fun _ => ⟨rfl, rfl⟩, ?_⟩
+    fun _ => ⟨rfl, rfl⟩, ?_, fun i hi => by simp [init] at hi⟩
   intro i th pc hi hpc
   simp only [init, List.getElem?_map] at hi
   cases hp : progs[i]? with
@@ -389,5 +396,77 @@ theorem init_inv (cfg : Cfg) (progs : List (List Op)) : Inv cfg (init progs) := 
     simp only [hp, Option.map_some, Option.some.injEq] at hi
     subst hi
     simp at hpc
+
+/-! ### the programs are executed in order: completed calls ++ remaining calls = the program -/
+
+def Shape (progs : List (List Op)) (sys : Sys) : Prop :=
+  sys.threads.length = progs.length
+  ∧ ∀ (i : Nat) (th : Thread), sys.threads[i]? = some th → progs[i]? = some (th.done.map (·.1) ++ th.prog)
+
+theorem shape_set (progs : List (List Op)) (sys : Sys) (t : Nat) (th th' : Thread) (s' : State)
+    (lk : Option Nat) (h : Shape progs sys) (hth : sys.threads[t]? = some th)
+    (heq : th'.done.map (·.1) ++ th'.prog = th.done.map (·.1) ++ th.prog) :
+    Shape progs { shared := s', lock := lk, threads := sys.threads.set t th' } := by
+  refine ⟨by simp [h.1], ?_⟩
+  intro i thi hi
+  by_cases hit : i = t
+  · subst hit
+    simp only [List.getElem?_set_self (lt_of_getElem? hth), Option.some.injEq] at hi
+    subst hi
+    rw [heq]; exact h.2 i th hth
+  · have hne : t ≠ i := fun e => hit e.symm
+    simp only [List.getElem?_set_ne hne] at hi
+    exact h.2 i thi hi
+
+theorem step_shape (I : Impl) (cfg : Cfg) (progs : List (List Op)) (sys : Sys) (t : Nat)
+    (h : Shape progs sys) : Shape progs (stepThread I cfg sys t) := by
+  cases hth : sys.threads[t]? with
+  | none => simp [stepThread, hth]; exact h
+  | some th =>
+    cases hprog : th.prog with
+    | nil => simp [stepThread, hth, hprog]; exact h
+    | cons op rest =>
+      by_cases hen : th.pc.getD (I.start op) = .lock ∧ sys.lock ≠ none
+      · rw [stepThread_disabled I cfg sys t th op rest hth hprog hen]; exact h
+      · rw [stepThread_eq I cfg sys t th op rest hth hprog hen]
+        rcases hmic : I.micro cfg op (th.pc.getD (I.start op)) sys.shared th.loc with ⟨s', l', r⟩
+        cases r with
+        | error e =>
+          simp only [finish]
+          exact shape_set progs sys t th _ _ _ h hth (by simp [hprog])
+        | ok pc' =>
+          simp only
+          split
+          · simp only [finish]
+            exact shape_set progs sys t th _ _ _ h hth (by simp [hprog])
+          · simp only [cont]
+            exact shape_set progs sys t th _ _ _ h hth (by simp [hprog])
+
+theorem run_shape (I : Impl) (cfg : Cfg) (progs : List (List Op)) (sched : List Nat) (sys : Sys)
+    (h : Shape progs sys) : Shape progs (run I cfg sys sched) := by
+  induction sched generalizing sys with
+  | nil => exact h
+  | cons t rest ih => exact ih _ (step_shape I cfg progs sys t h)
+
+theorem drain_shape (I : Impl) (cfg : Cfg) (progs : List (List Op)) (fuel : Nat) (sys : Sys)
+    (h : Shape progs sys) : Shape progs (drain I cfg fuel sys) := by
+  induction fuel generalizing sys with
+  | zero => exact h
+  | succ n ih =>
+    unfold drain
+    split
+    · exact ih _ (step_shape I cfg progs sys _ h)
+    · exact h
+
+theorem init_shape (progs : List (List Op)) : Shape progs (init progs) := by
+  refine ⟨by simp [init], ?_⟩
+  intro i th hi
+  simp only [init, List.getElem?_map] at hi
+  cases hp : progs[i]? with
+  | none => simp [hp] at hi
+  | some p =>
+    simp only [hp, Option.map_some, Option.some.injEq] at hi
+    subst hi
+    simp
 
 end SgModel.Quota
